@@ -50,7 +50,9 @@ MANIFEST_ENTRY = {
             "values) parse(marshal m) = m (parse_marshal); the 23 classes other than HELLO/WELCOME are well-formed (schemas_wf); type "
             "codes, MESSAGE_TYPE_MAP dispatch and element counts agree with the regenerated tables for all 25 (schema_codes, "
             "type_dispatch, schema_lengths); N messages batched with 0x18 / u32 length prefixes come back as the same N in order for "
-            "every N (unbatch_batch_json, unbatch_batch_bin); BINARY is false exactly for JSON (binary_flag); end-to-end relative to "
+            "every N (unbatch_batch_json, unbatch_batch_bin); BINARY is false exactly for JSON (binary_flag); a WELCOME with an "
+            "authmethod but no authrole round-trips (welcome_authmethod_without_authrole: authmethod is written under its own guard "
+            "since the repair of Welcome.marshal); end-to-end relative to "
             "the serializer library's decode(encode v) = v law. Tied to the code by round-tripping ~4k (quick) / ~25k (thorough) "
             "generated messages through 8 serializer configurations and comparing attributes field by field with the model.",
     "note": "HELLO and WELCOME are modelled and tied (marshal/parse correspondence) but outside parse_marshal (their roles entry is "
@@ -249,4 +251,6 @@ Mutation self-test (scratch copy of /repo/src via VERIF_REPO, quick tier, 2026-0
  M8  CBOR batch length prefix read little-endian                   rc=1  roundtrip-raises:<every class>:ProtocolError:cbor
  M10 Call.marshal_options: `if self.caller:` instead of `is not None`   rc=1  roundtrip:Call.caller:falsy-dropped
  H1  harmless: GOODBYE option blocks swapped, local renamed, f-string -> format   rc=0 (silent)
+ R1  (2026-09 repair, run against the tree without it) Welcome.marshal writes authmethod under `if self.authrole:`
+                                                                    rc=1  roundtrip:Welcome.authmethod:changed (the entry is "fixed": reported, not suppressed)
 """
